@@ -1,5 +1,6 @@
 SPECIFICATION Spec
 CONSTANT MaxLen = 2
+CONSTANT Alphabet <- NameAlphabet
 CONSTANT Mode = "pinned"
 INVARIANT PinnedOK
 CHECK_DEADLOCK FALSE
